@@ -265,6 +265,9 @@ pub fn eval_node<F: FnMut(&GraphColoredVertices, &str)>(
                         steady_states,
                         progress_callback,
                     );
+                    // the child result is only meaningful inside the restricted universe (it might come
+                    // from a proposition, wild-card, or cache that is not aware of the restriction)
+                    let child_eval = child_eval.intersect(restricted_graph.unit_colored_vertices());
                     progress_callback(
                         &empty_set,
                         &format!("Evaluating operator `{op}` with restricted domain `{domain}`."),
